@@ -296,12 +296,12 @@ func runC16Shift(x c16Shift) vfCase {
 
 // reassembly ordering / in-flight lookup under sequence shift
 type c16Reasm struct {
-	IL     bool   `json:"il"`
-	SeqB   uint32 `json:"seqb"`  // SSN/MID base for run 2 (run 1 uses 100)
-	TSNB   uint32 `json:"tsnb"`  // TSN base for run 2 (run 1 uses 1<<20)
-	Msgs   []int  `json:"msgs"`  // fragments per message
-	Order  []int  `json:"order"` // permutation seed per chunk
-	Unord  []bool `json:"unord"`
+	IL    bool   `json:"il"`
+	SeqB  uint32 `json:"seqb"`  // SSN/MID base for run 2 (run 1 uses 100)
+	TSNB  uint32 `json:"tsnb"`  // TSN base for run 2 (run 1 uses 1<<20)
+	Msgs  []int  `json:"msgs"`  // fragments per message
+	Order []int  `json:"order"` // permutation seed per chunk
+	Unord []bool `json:"unord"`
 }
 
 func genC16Reasm(rt *rapid.T) c16Reasm {
